@@ -69,7 +69,7 @@ FailAtoms == {Call("to_int", <<Q(pa)>>), Call("to_int", <<Q(pb)>>),
             \cup (IF Thorough THEN {Op("div", Lit(IntV(1)), Q(pb)), Call("upcase", <<Q(pa)>>),
                                     Block(<<Asg(TVar("y"), Lit(IntV(4))), Call("to_string", <<Q(pb)>>)>>)} ELSE {})
 
-Prelude == <<Asg(TVar("x"), Lit(IntV(5)))>>
+Prelude == <<Asg(TVar("x"), Lit(IntV(5))), Asg(TVar("y"), Lit(IntV(0)))>>
 Observe == <<ArrN(<<Var("y"), Q(pc), Var("x")>>)>>
 
 (* ---------- C09: short circuit and conditionals ---------- *)
@@ -94,9 +94,12 @@ OkTargets  == {TVar("ok"), TExt(<<F("ok")>>)} \cup (IF Thorough THEN {TNoop, TVa
 ErrTargets == {TVar("err"), TExt(<<F("err")>>)} \cup (IF Thorough THEN {TNoop} ELSE {})
 Typed == {Call("to_int", <<Q(pa)>>), Call("to_string", <<Q(pa)>>), Call("to_bool", <<Q(pa)>>),
           Call("to_float", <<Q(pa)>>), Call("parse_json", <<Q(pa)>>), Call("array", <<Q(pa)>>),
-          Call("object", <<Q(pa)>>), Call("to_timestamp", <<Q(pa)>>)}
+          Call("object", <<Q(pa)>>), Call("to_timestamp", <<Q(pa)>>),
+          \* exact collection kinds with known members: the default {} / [] must still be in ok's type
+          ObjN(<<"n">>, <<Call("to_int", <<Q(pa)>>)>>), ArrN(<<Call("to_int", <<Q(pa)>>)>>),
+          Call("parse_url", <<Q(pa)>>)}
 Inf == {Asg2(o, e, x) : o \in OkTargets, e \in ErrTargets, x \in FailAtoms \cup Typed}
-ObserveOk == <<ArrN(<<Var("ok"), Var("err"), Q(<<F("ok")>>), Q(<<F("err")>>), Q(pc)>>)>>
+ObserveOk == <<ArrN(<<Var("ok"), QV("ok", <<F("n")>>), QV("ok", <<I(0)>>), Var("err"), Q(<<F("ok")>>), Q(<<F("err")>>), Q(pc)>>)>>
 Progs_C08 == {Prelude \o <<s>> \o Observe : s \in Coal}
              \cup {Prelude \o <<Asg(TVar("ok"), Lit(Null)), Asg(TVar("err"), Lit(Null)), s>> \o ObserveOk : s \in Inf}
 
@@ -175,8 +178,12 @@ Colls13 == {ObjN(<<"p", "q">>, <<Lit(IntV(1)), Lit(Str("s"))>>), ArrN(<<Lit(IntV
 \* outer variable named like a parameter (shadowing) or not
 Shadow == {<<>>, <<Asg(TVar("k"), Lit(Str("outer"))), Asg(TVar("v"), Lit(Str("outer")))>>}
           \cup (IF Thorough THEN {<<Asg(TVar("v"), Lit(IntV(7)))>>} ELSE {})
+\* "" is the placeholder parameter `_` (bound to nothing)
 Iter13(coll, body) ==
   {Iter("for_each", coll, <<"k", "v">>, body),
+   Iter("for_each", coll, <<"", "v">>, body),
+   Iter("filter", coll, <<"k", "v">>, body \o <<Lit(Bool(TRUE))>>),
+   Iter("filter", coll, <<"", "v">>, body \o <<Lit(Bool(TRUE))>>),
    Iter("map_values", coll, <<"v">>, body)}
 Calls13 == UNION {Iter13(coll, body) : coll \in Colls13, body \in Bodies}
 \* a failing closure call is coalesced or captured so the program goes on and can observe
@@ -184,11 +191,70 @@ Handle(c) == {c, Op("err", c, Lit(Null)), Asg2(TVar("ok"), TVar("err"), c)}
 Progs_C13 == {sh \o <<h>> \o <<ArrN(<<Var("k"), Var("v")>>)>> : sh \in Shadow, h \in UNION {Handle(c) : c \in Calls13}}
              \cup {sh \o <<h>> : sh \in Shadow, h \in UNION {Handle(c) : c \in Calls13}}
 
+(* ---------- C01 / C02 / C12 / C16: typing, fallibility, constants, program info ---------- *)
+\* A program is: prelude; two (thorough: three) statements that change what the compiler knows
+\* about variables / the event; one "user" statement whose acceptance depends on that
+\* knowledge; an observation of everything.  Run on every event that conforms to the
+\* external kinds the program is compiled against.
+KAnyInf == [inf |-> [p |-> <<"bytes", "integer", "float", "boolean", "timestamp", "regex", "null", "undefined">>, arr |-> TRUE, obj |-> TRUE]]
+KAnyObject == [p |-> <<>>, obj |-> [kn |-> <<>>, un |-> KAnyInf]]
+KP(ps) == [p |-> ps]
+KNoUnknown == [x |-> KP(<<"undefined">>)]
+\* { a: integer, c: boolean, s: string, o: { p: integer, * : any } } and nothing else
+KTyped == [p |-> <<>>, obj |-> [kn |-> [a |-> KP(<<"integer">>), c |-> KP(<<"boolean">>), s |-> KP(<<"bytes">>),
+                                        o |-> [p |-> <<>>, obj |-> [kn |-> [p |-> KP(<<"integer">>)], un |-> KAnyInf]]],
+                                un |-> KNoUnknown]]
+Exts == {[name |-> "any", target |-> KAnyObject, meta |-> KAnyObject],
+         [name |-> "typed", target |-> KTyped, meta |-> KAnyObject]}
+
+EvPool == {[ev |-> EmptyObj, meta |-> EmptyObj],
+           [ev |-> Obj([a |-> IntV(3), c |-> Bool(TRUE), s |-> Str("x"), o |-> Obj([p |-> IntV(1)])]), meta |-> EmptyObj],
+           [ev |-> Obj([a |-> IntV(0), c |-> Bool(FALSE), s |-> Str(""), o |-> Obj([p |-> IntV(2), q |-> Str("w")])]), meta |-> Obj([m |-> IntV(1)])],
+           [ev |-> Obj([a |-> Str("s"), c |-> Bool(TRUE)]), meta |-> EmptyObj],
+           [ev |-> Obj([a |-> Obj([a |-> IntV(1)]), c |-> Null, s |-> IntV(1)]), meta |-> EmptyObj],
+           [ev |-> Obj([a |-> Arr(<<IntV(1), Str("s")>>), c |-> Bool(FALSE), b |-> Obj([c |-> IntV(1)])]), meta |-> EmptyObj]}
+
+PreludeT == <<Asg(TVar("x"), Lit(IntV(5))), Asg(TVar("y"), Lit(Str("y")))>>
+CondC == Op("eq", Q(pc), Lit(Bool(TRUE)))
+Setters ==
+  {Asg(TVar("x"), Lit(Str("s"))), Asg(TVar("x"), Q(pa)), Asg(TVar("x"), Lit(Null)),
+   Asg(TVar("x"), ObjN(<<"a", "b">>, <<Lit(IntV(2)), Lit(Str("s"))>>)),
+   Asg(TVar("x"), ArrN(<<Lit(IntV(1)), Lit(Str("s"))>>)),
+   Asg(TVarP("x", pa), Lit(IntV(2))), Asg(TVarP("x", <<I(1)>>), Lit(Str("t"))),
+   Asg(TExt(pa), Var("x")), Asg(TExt(<<F("b"), F("c")>>), Lit(IntV(1))), Asg(TExt(<<F("a"), I(1)>>), Lit(Str("s"))),
+   Asg(TMeta(<<F("m")>>), Var("x")),
+   If(<<CondC>>, <<Asg(TVar("x"), Lit(Str("t")))>>),
+   IfElse(<<CondC>>, <<Asg(TVar("x"), Lit(IntV(2)))>>, <<Asg(TVar("x"), Lit(Null))>>),
+   If(<<CondC>>, <<Asg(TExt(pa), Lit(Str("t")))>>),
+   Del(TVarP("x", pa)), Del(TExt(pa)), Del(TExt(<<F("b"), F("c")>>)),
+   Asg(TVar("y"), Var("x")), Asg(TVar("y"), Op("mul", Lit(IntV(2)), Lit(IntV(3)))),
+   Asg(TVar("y"), Lit(IntV(0))),
+   Iter("for_each", ObjN(<<"p">>, <<Lit(IntV(1))>>), <<"k", "v">>, <<Asg(TVar("x"), Var("v"))>>),
+   Iter("for_each", ArrN(<<>>), <<"k", "v">>, <<Asg(TVar("x"), Lit(Str("c")))>>),
+   Op("or", Q(pc), Group(Asg(TVar("x"), Lit(Str("o"))))),
+   Op("err", Call("to_int", <<Q(pa)>>), Group(Asg(TVar("x"), Lit(Bool(TRUE))))),
+   Asg2(TVar("x"), TVar("y"), Call("to_int", <<Q(pa)>>)),
+   Asg(TVar("x"), Op("merge", ObjN(<<"a">>, <<Lit(IntV(1))>>), ObjN(<<"b">>, <<Q(pa)>>)))}
+Users ==
+  {Asg(TVar("z"), Op("add", Var("x"), Lit(IntV(1)))), Asg(TVar("z"), Call("upcase", <<Var("x")>>)),
+   Asg(TVar("z"), Op("div", Lit(IntV(10)), Var("y"))), Asg(TVar("z"), Op("add", QV("x", pa), Lit(IntV(1)))),
+   Asg(TVar("z"), Op("add", Q(pa), Lit(IntV(1)))), Asg(TVar("z"), Call("upcase", <<Q(<<F("s")>>)>>)),
+   Asg(TVar("z"), Op("mul", Var("y"), Lit(IntV(2)))), Asg(TVar("z"), Call("length", <<Var("x")>>)),
+   Asg(TVar("z"), Op("lt", Var("x"), Lit(IntV(3)))), Asg(TVar("z"), Op("and", Var("x"), Lit(Bool(TRUE)))),
+   Asg(TVar("z"), Op("add", Q(<<F("o"), F("p")>>), QV("x", <<I(0)>>))),
+   Asg(TVar("z"), Lit(Null))}
+ObserveT == <<ObjN(<<"a", "b", "m", "r", "x", "xa", "y">>,
+                   <<Q(pa), Q(pb), QM(<<F("m")>>), Q(<<>>), Var("x"), QV("x", pa), Var("y")>>)>>
+Bodies01 == {<<s1>> : s1 \in Setters} \cup {<<s1, s2>> : s1 \in Setters, s2 \in Setters}
+            \cup (IF Thorough THEN {<<s1, s2, s3>> : s1 \in Setters, s2 \in Setters, s3 \in Setters} ELSE {})
+Progs_C01 == {PreludeT \o b \o <<u>> \o ObserveT : b \in Bodies01, u \in Users}
+
 (* ---------- selection ---------- *)
 Progs == CASE Focus = "C09" -> Progs_C09
            [] Focus = "C08" -> Progs_C08
            [] Focus \in {"C06", "C07"} -> Progs_Ctl
            [] Focus = "C13" -> Progs_C13
+           [] Focus \in {"C01", "C02", "C12", "C16"} -> Progs_C01
 
 \* events the harness runs every program on
 Events == << [ev |-> EmptyObj, meta |-> EmptyObj],
@@ -203,6 +269,16 @@ Next == UNCHANGED prog
 Spec == Init /\ [][Next]_prog
 
 ASSUME PrintT(<<"EVENTS", ToJson(Events)>>)
+
+TypedFocus == Focus \in {"C01", "C02", "C12", "C16"}
+\* events conforming to the external kinds (membership decided by the spec's own InKind)
+Conforming(ext) == {e \in EvPool : InKind(e.ev, ext.target) /\ InKind(e.meta, ext.meta)}
+SetToSeq(S) == CHOOSE q \in [1..Cardinality(S) -> S] : \A i, j \in 1..Cardinality(S) : i # j => q[i] # q[j]
+ExtCases == {[ext |-> [target |-> ext.target, meta |-> ext.meta], extname |-> ext.name,
+              events |-> SetToSeq(Conforming(ext))] : ext \in Exts}
+\* printed once: the external kinds to compile against, each with its conforming events; the
+\* driver runs every generated program under every such case
+ASSUME TypedFocus => PrintT(<<"EXTCASES", ToJson(SetToSeq(ExtCases))>>)
 
 Emit == PrintT(<<"REPLAY", ToJson([ast |-> prog])>>)
 =============================================================================
